@@ -58,6 +58,137 @@ def unconditional_writes(m, f, depth=0, seen=None):
     return out
 
 
+def memo_state(m):
+    """(sampling functions, static-storage state they touch) - the inputs of memo_coherence"""
+    cut = {f.name for f in m.funcs.values() if f.name.startswith(("cmi_logger_", "cmb_logger_"))} | {"cmi_assert_failed"}
+    direct, eff = inv.global_effects(m, cut=cut)
+    api = sampling_api(m)
+    S = set()
+    for f in api:
+        S |= eff.get(f.key, {}).get("reads", set())
+        S |= eff.get(f.key, {}).get("writes", set())
+    return api, {g for g in S if g in m.globals}
+
+
+def memo_coherence(rep, r6, m, api, S):
+    """Parameter memos of the samplers are keyed exactly and updated as a whole (shared: R-C15-6, R-C19-5)."""
+    nmemo = 0
+    # the samplers and the helpers of the random module that keep static cells of their own (a memo moved into a helper)
+    memo_funcs = {f_.key: f_ for f_ in api}
+    for g_ in m.globals.values():
+        if g_.local_to is not None and g_.local_to in m.funcs:
+            hf = m.funcs[g_.local_to]
+            if (m.rel(hf.file) or "").startswith(("src/cmb_random", "include/cmb_random")):
+                memo_funcs.setdefault(hf.key, hf)
+    for f in sorted(memo_funcs.values(), key=lambda f_: f_.name):
+        fcx = FuncCtx(m, f)
+        local_statics = {g.node["id"]: g.name for g in m.globals.values() if g.local_to == f.key and g.node is not None}
+
+        def cell(n_):
+            """name of the static-storage cell an lvalue / rvalue denotes: a static local of this function, or a member of
+            a file-scope (thread-local) object of the random module; None otherwise"""
+            n0 = strip(n_, casts=True)
+            path = []
+            while n0["kind"] == "MemberExpr" and not n0.get("isArrow") and kids(n0):
+                path.append(n0.get("name") or "?")
+                n0 = strip(kids(n0)[0], casts=True)
+            if n0["kind"] != "DeclRefExpr":
+                return None
+            if n0["ref"].get("id") in local_statics and not path:
+                return local_statics[n0["ref"]["id"]]
+            gk = m.global_key(f.unit, f, n0["ref"])
+            if gk is not None and gk in S and path and m.globals[gk].local_to is None:
+                return "%s.%s" % (m.globals[gk].name, ".".join(reversed(path)))
+            return None
+        params = {p_["name"] for p_ in f.params}
+
+        def is_param(n_):
+            c_ = fcx.canon(n_)
+            return c_ in params
+
+        def cells_written(node):
+            out = []
+            for y in walk(node):
+                if y["kind"] in ("BinaryOperator", "CompoundAssignOperator") and y.get("opcode", "").endswith("=") and \
+                        y.get("opcode") not in ("==", "!=", "<=", ">="):
+                    c_ = cell(kids(y)[0])
+                    if c_:
+                        out.append(c_)
+            return out
+        if not local_statics and not any(cell(kids(y)[0]) for y in walk(f.body)
+                                         if y["kind"] in ("BinaryOperator", "CompoundAssignOperator") and y.get("opcode") == "="):
+            continue
+        for x in walk(f.body):
+            if x["kind"] != "IfStmt":
+                continue
+            c0 = strip(kids(x)[0], casts=True)
+            neg = False
+            while c0["kind"] == "UnaryOperator" and c0.get("opcode") == "!":
+                c0, neg = strip(kids(c0)[0], casts=True), not neg
+            exact = c0["kind"] == "BinaryOperator" and ((c0.get("opcode") == "!=" and not neg) or (c0.get("opcode") == "==" and neg))
+            key = par = None
+            if exact:
+                sides = kids(c0)
+                keyc = [cell(z) for z in sides if cell(z)]
+                parc = [z for z in sides if is_param(z)]
+                if len(keyc) != 1 or len(parc) != 1:
+                    exact = False
+                else:
+                    key = keyc[0]
+            if not exact:
+                # some other test that relates a parameter to one static cell and guards the recomputation of other cells:
+                # a memo whose key test is not equality
+                ks = {cell(y) for y in walk(c0) if y["kind"] in ("DeclRefExpr", "MemberExpr") and cell(y)}
+                ps = [y for y in walk(c0) if y["kind"] == "DeclRefExpr" and is_param(y)]
+                wr = set(cells_written(kids(x)[1]))
+                if len(ks) == 1 and ps and wr - ks:
+                    nmemo += 1
+                    kname = next(iter(ks))
+                    r6.instance("%s: memo keyed by %s with the key test %s" % (f.name, kname, render(kids(x)[0])[:80]))
+                    rep.finding(r6, f.name, "memo:key-inexact", "%s reuses the values cached for the parameter stored in '%s' whenever "
+                                "'%s' holds - a test that is not 'the parameter equals the key': a call with a parameter that "
+                                "differs from the cached one (by one unit in the last place, say) is answered with the other "
+                                "parameter's constants, so its result depends on what earlier calls on the thread used"
+                                % (f.name, kname, render(kids(x)[0])[:100]), where=m.rel(loc(x)))
+                    r6.fail()
+                continue
+            block = kids(x)[1]
+            stmts = kids(block) if block["kind"] == "CompoundStmt" else [block]
+            nmemo += 1
+            values = sorted({c_ for c_ in cells_written(block) if c_ != key})
+            key_at = [i for i, s_ in enumerate(stmts) if key in cells_written(s_)]
+            r6.instance("%s: memo keyed by %s caching %s (key updated: %s)" % (f.name, key, values, bool(key_at)))
+            rep.sample({"rule": "R-C15-6", "function": f.name, "key": key, "values": values})
+            bad = None
+            if key_at:
+                # the key is given the parameter it is compared with (not a quantity derived from it: the next call with the
+                # same parameter would miss, and one with that derived value would hit on the wrong constants)
+                par_c = fcx.canon(parc[0])
+                for y in walk(block):
+                    if y["kind"] == "BinaryOperator" and y.get("opcode") == "=" and cell(kids(y)[0]) == key:
+                        if fcx.canon(kids(y)[1]) != par_c:
+                            bad = ("the key '%s' is compared with '%s' but stored as '%s': the memo is then looked up under one "
+                                   "value and filed under another" % (key, par_c, fcx.canon(kids(y)[1])))
+                # every value is written by a top-level statement of the block (not only under a nested condition) ...
+                for v_ in values:
+                    if not any(v_ in cells_written(s_) and s_["kind"] != "IfStmt" for s_ in stmts):
+                        bad = "the cached value '%s' is not updated on every path that updates the key '%s'" % (v_, key)
+                # ... and nothing leaves the function inside the block
+                for s_ in stmts:
+                    for y in walk(s_):
+                        if y["kind"] in ("ReturnStmt", "GotoStmt"):
+                            bad = ("the function can return at line %s from inside the block that updates the key '%s': the key "
+                                   "then says 'cached for this parameter' while the cached values belong to another one" %
+                                   (y.get("line"), key))
+            if bad:
+                rep.finding(r6, f.name, "memo:incoherent", "%s: %s" % (f.name, bad), where=m.rel(loc(x)))
+                r6.fail()
+            else:
+                r6.ok()
+    if nmemo == 0:
+        raise AnalysisBroken("R-C15-6: no parameter memo found in the sampling functions")
+
+
 def rules(rep, m):
     cut = {f.name for f in m.funcs.values() if f.name.startswith(("cmi_logger_", "cmb_logger_"))} | {"cmi_assert_failed"}
     direct, eff = inv.global_effects(m, cut=cut)
@@ -297,121 +428,7 @@ def rules(rep, m):
                   "way out of the function lies between the update of the key and the updates of the values, and a path "
                   "that updates the key updates all of them - so what a call returns never depends on which parameters "
                   "earlier calls on the same thread used", floor=2)
-    nmemo = 0
-    # the samplers and the helpers of the random module that keep static cells of their own (a memo moved into a helper)
-    memo_funcs = {f_.key: f_ for f_ in api}
-    for g_ in m.globals.values():
-        if g_.local_to is not None and g_.local_to in m.funcs:
-            hf = m.funcs[g_.local_to]
-            if (m.rel(hf.file) or "").startswith(("src/cmb_random", "include/cmb_random")):
-                memo_funcs.setdefault(hf.key, hf)
-    for f in sorted(memo_funcs.values(), key=lambda f_: f_.name):
-        fcx = FuncCtx(m, f)
-        local_statics = {g.node["id"]: g.name for g in m.globals.values() if g.local_to == f.key and g.node is not None}
-
-        def cell(n_):
-            """name of the static-storage cell an lvalue / rvalue denotes: a static local of this function, or a member of
-            a file-scope (thread-local) object of the random module; None otherwise"""
-            n0 = strip(n_, casts=True)
-            path = []
-            while n0["kind"] == "MemberExpr" and not n0.get("isArrow") and kids(n0):
-                path.append(n0.get("name") or "?")
-                n0 = strip(kids(n0)[0], casts=True)
-            if n0["kind"] != "DeclRefExpr":
-                return None
-            if n0["ref"].get("id") in local_statics and not path:
-                return local_statics[n0["ref"]["id"]]
-            gk = m.global_key(f.unit, f, n0["ref"])
-            if gk is not None and gk in S and path and m.globals[gk].local_to is None:
-                return "%s.%s" % (m.globals[gk].name, ".".join(reversed(path)))
-            return None
-        params = {p_["name"] for p_ in f.params}
-
-        def is_param(n_):
-            c_ = fcx.canon(n_)
-            return c_ in params
-
-        def cells_written(node):
-            out = []
-            for y in walk(node):
-                if y["kind"] in ("BinaryOperator", "CompoundAssignOperator") and y.get("opcode", "").endswith("=") and \
-                        y.get("opcode") not in ("==", "!=", "<=", ">="):
-                    c_ = cell(kids(y)[0])
-                    if c_:
-                        out.append(c_)
-            return out
-        if not local_statics and not any(cell(kids(y)[0]) for y in walk(f.body)
-                                         if y["kind"] in ("BinaryOperator", "CompoundAssignOperator") and y.get("opcode") == "="):
-            continue
-        for x in walk(f.body):
-            if x["kind"] != "IfStmt":
-                continue
-            c0 = strip(kids(x)[0], casts=True)
-            neg = False
-            while c0["kind"] == "UnaryOperator" and c0.get("opcode") == "!":
-                c0, neg = strip(kids(c0)[0], casts=True), not neg
-            exact = c0["kind"] == "BinaryOperator" and ((c0.get("opcode") == "!=" and not neg) or (c0.get("opcode") == "==" and neg))
-            key = par = None
-            if exact:
-                sides = kids(c0)
-                keyc = [cell(z) for z in sides if cell(z)]
-                parc = [z for z in sides if is_param(z)]
-                if len(keyc) != 1 or len(parc) != 1:
-                    exact = False
-                else:
-                    key = keyc[0]
-            if not exact:
-                # some other test that relates a parameter to one static cell and guards the recomputation of other cells:
-                # a memo whose key test is not equality
-                ks = {cell(y) for y in walk(c0) if y["kind"] in ("DeclRefExpr", "MemberExpr") and cell(y)}
-                ps = [y for y in walk(c0) if y["kind"] == "DeclRefExpr" and is_param(y)]
-                wr = set(cells_written(kids(x)[1]))
-                if len(ks) == 1 and ps and wr - ks:
-                    nmemo += 1
-                    kname = next(iter(ks))
-                    r6.instance("%s: memo keyed by %s with the key test %s" % (f.name, kname, render(kids(x)[0])[:80]))
-                    rep.finding(r6, f.name, "memo:key-inexact", "%s reuses the values cached for the parameter stored in '%s' whenever "
-                                "'%s' holds - a test that is not 'the parameter equals the key': a call with a parameter that "
-                                "differs from the cached one (by one unit in the last place, say) is answered with the other "
-                                "parameter's constants, so its result depends on what earlier calls on the thread used"
-                                % (f.name, kname, render(kids(x)[0])[:100]), where=m.rel(loc(x)))
-                    r6.fail()
-                continue
-            block = kids(x)[1]
-            stmts = kids(block) if block["kind"] == "CompoundStmt" else [block]
-            nmemo += 1
-            values = sorted({c_ for c_ in cells_written(block) if c_ != key})
-            key_at = [i for i, s_ in enumerate(stmts) if key in cells_written(s_)]
-            r6.instance("%s: memo keyed by %s caching %s (key updated: %s)" % (f.name, key, values, bool(key_at)))
-            rep.sample({"rule": "R-C15-6", "function": f.name, "key": key, "values": values})
-            bad = None
-            if key_at:
-                # the key is given the parameter it is compared with (not a quantity derived from it: the next call with the
-                # same parameter would miss, and one with that derived value would hit on the wrong constants)
-                par_c = fcx.canon(parc[0])
-                for y in walk(block):
-                    if y["kind"] == "BinaryOperator" and y.get("opcode") == "=" and cell(kids(y)[0]) == key:
-                        if fcx.canon(kids(y)[1]) != par_c:
-                            bad = ("the key '%s' is compared with '%s' but stored as '%s': the memo is then looked up under one "
-                                   "value and filed under another" % (key, par_c, fcx.canon(kids(y)[1])))
-                # every value is written by a top-level statement of the block (not only under a nested condition) ...
-                for v_ in values:
-                    if not any(v_ in cells_written(s_) and s_["kind"] != "IfStmt" for s_ in stmts):
-                        bad = "the cached value '%s' is not updated on every path that updates the key '%s'" % (v_, key)
-                # ... and nothing leaves the function inside the block
-                for s_ in stmts:
-                    for y in walk(s_):
-                        if y["kind"] in ("ReturnStmt", "GotoStmt"):
-                            bad = ("the function can return at line %s from inside the block that updates the key '%s': the key "
-                                   "then says 'cached for this parameter' while the cached values belong to another one" %
-                                   (y.get("line"), key))
-            if bad:
-                rep.finding(r6, f.name, "memo:incoherent", "%s: %s" % (f.name, bad), where=m.rel(loc(x)))
-                r6.fail()
-            else:
-                r6.ok()
-    if nmemo == 0:
-        raise AnalysisBroken("R-C15-6: no parameter memo found in the sampling functions")
+    memo_coherence(rep, r6, m, api, S)
 
 
 def run(tier="quick"):
